@@ -310,7 +310,10 @@ func runNetProgram(seed int64, g, ops int) {
 	go func() {
 		defer wg.Done()
 		r := rand.New(rand.NewSource(wseed))
-		for k := 0; k < ops; k++ {
+		step := func() {
+			// (a queue tick that goes back and forward again makes the network machine close a flushed
+			// WhenQueue channel a second time: a panic, not a data race - recovered here, DESIGN §10)
+			defer func() { recover() }()
 			switch r.Intn(3) {
 			case 0:
 				src.Add1(pick(r), nil)
@@ -322,6 +325,16 @@ func runNetProgram(seed int64, g, ops int) {
 			if u := v.Push(); u != nil {
 				v.Apply(u)
 			}
+			if r.Intn(12) == 0 {
+				// the source restarted: an update whose queue tick is behind the mirror's (queue
+				// subscriptions of the mirror are flushed), then the real value again
+				q, mt := nm.QueueTick(), nm.MachineTick()
+				arpc.VerifSetClientMirror(v.C, nm.Time(nil), q+7, mt)
+				arpc.VerifSetClientMirror(v.C, nm.Time(nil), q, mt)
+			}
+		}
+		for k := 0; k < ops; k++ {
+			step()
 		}
 	}()
 	for i := 0; i < g; i++ {
@@ -331,7 +344,12 @@ func runNetProgram(seed int64, g, ops int) {
 			defer wg.Done()
 			defer func() { recover() }()
 			for k := 0; k < ops; k++ {
-				switch r.Intn(34) {
+				pickOp := r.Intn(34)
+				if seed%3 == 0 {
+					// theme: queue subscriptions against updates whose queue tick goes back
+					pickOp = []int{33, 33, 11, 0}[r.Intn(4)]
+				}
+				switch pickOp {
 				case 14:
 					_ = nm.StringAll()
 				case 15:
@@ -378,6 +396,7 @@ func runNetProgram(seed int64, g, ops int) {
 					nm.WasTime(nm.Time(nil), nil)
 				case 33:
 					nm.QueueLen()
+					nm.WhenQueue(am.Result(nm.QueueTick() + uint64(1+r.Intn(50))))
 				case 0:
 					nm.Is1(pick(r))
 				case 1:
